@@ -171,6 +171,15 @@ impl Socket for ClientPeer {
     }
 }
 
+/// waits for a worker thread, but not for ever: `None` = it neither finished nor gave up within the deadline
+fn join_within(h: std::thread::JoinHandle<()>, secs: u64) -> Option<bool> {
+    let (tx, rx) = std::sync::mpsc::channel();
+    std::thread::spawn(move || {
+        let _ = tx.send(h.join().is_err());
+    });
+    rx.recv_timeout(Duration::from_secs(secs)).ok()
+}
+
 fn file_bytes(len: usize) -> Vec<u8> {
     (0..len).map(|i| ((i * 7 + i / 251) % 251) as u8).collect()
 }
@@ -198,10 +207,16 @@ fn download(dir: &PathBuf, len: usize, ws: u16, rep: u8, fault: Fault, verdict: 
     // keep a second handle on the client state through the shared log only; final state is read from the log
     let w = Worker::new(boxed, path.clone(), true, BLK, TMO, ws, rep);
     let h = w.send(false).unwrap();
-    let panicked = h.join().is_err();
+    let ctx = format!("{label}: download len={len} blksize={BLK} windowsize={ws} repeat={rep} fault={fault:?}");
+    let panicked = match join_within(h, 60) {
+        Some(p) => p,
+        None => {
+            verdict.violations.push(("C07", format!("{ctx}: the sender neither completed nor gave up within 60 s")));
+            return;
+        }
+    };
     let sh = sh.lock().unwrap();
     let nblocks = (len / BLK + 1) as u64;
-    let ctx = format!("{label}: download len={len} blksize={BLK} windowsize={ws} repeat={rep} fault={fault:?}");
     if panicked {
         verdict.violations.push(("C07", format!("{ctx}: worker thread panicked")));
     }
@@ -415,8 +430,14 @@ fn upload(dir: &PathBuf, len: usize, ws: u16, rep: u8, fault: Fault, verdict: &m
     };
     let w = Worker::new(Box::new(peer), path.clone(), false, BLK, TMO, ws, rep);
     let h = w.receive().unwrap();
-    let panicked = h.join().is_err();
     let ctx = format!("{label}: upload len={len} blksize={BLK} windowsize={ws} repeat={rep} fault={fault:?}");
+    let panicked = match join_within(h, 60) {
+        Some(p) => p,
+        None => {
+            verdict.violations.push(("C07", format!("{ctx}: the receiver neither completed nor gave up within 60 s")));
+            return;
+        }
+    };
     if panicked {
         verdict.violations.push(("C07", format!("{ctx}: worker thread panicked")));
     }
@@ -457,6 +478,81 @@ fn upload(dir: &PathBuf, len: usize, ws: u16, rep: u8, fault: Fault, verdict: &m
     let stored = std::fs::read(&path).unwrap_or_default();
     if progress != nblocks || stored != data {
         verdict.violations.push(("C04", format!("{ctx}: upload did not complete with identical content (acknowledged {} of {} blocks, {} of {} bytes stored)", progress, nblocks, stored.len(), len)));
+    }
+}
+
+/// C07: a sender whose peer falls silent gives up after a bounded number of tries, whatever it received before (time-outs and
+/// stale acknowledgements in any order).  The peer plays a script (None = stay silent for one receive) and is silent afterwards.
+struct ScriptThenSilent {
+    script: Mutex<VecDeque<Option<Packet>>>,
+    silent_receives: Arc<Mutex<usize>>,
+    give_up_at: usize,
+}
+impl Socket for ScriptThenSilent {
+    fn send(&self, _packet: &Packet) -> Result<(), Box<dyn Error>> {
+        Ok(())
+    }
+    fn send_to(&self, packet: &Packet, _to: &SocketAddr) -> Result<(), Box<dyn Error>> {
+        self.send(packet)
+    }
+    fn recv_with_size(&self, _size: usize) -> Result<Packet, Box<dyn Error>> {
+        if let Some(step) = self.script.lock().unwrap().pop_front() {
+            return match step {
+                Some(p) => Ok(p),
+                None => {
+                    std::thread::sleep(Duration::from_millis(1010));
+                    Err("timeout".into())
+                }
+            };
+        }
+        let mut n = self.silent_receives.lock().unwrap();
+        *n += 1;
+        if *n > self.give_up_at {
+            // the sender should have given up long ago: end the experiment
+            return Ok(Packet::Error { code: tftpd::ErrorCode::NotDefined, msg: "experiment over".to_string() });
+        }
+        drop(n);
+        std::thread::sleep(Duration::from_millis(1010));
+        Err("timeout".into())
+    }
+    fn recv_from_with_size(&self, size: usize) -> Result<(Packet, SocketAddr), Box<dyn Error>> {
+        Ok((self.recv_with_size(size)?, self.remote_addr()?))
+    }
+    fn remote_addr(&self) -> Result<SocketAddr, Box<dyn Error>> {
+        Ok("127.0.0.1:50004".parse().unwrap())
+    }
+    fn set_read_timeout(&mut self, _d: Duration) -> Result<(), Box<dyn Error>> {
+        Ok(())
+    }
+    fn set_write_timeout(&mut self, _d: Duration) -> Result<(), Box<dyn Error>> {
+        Ok(())
+    }
+}
+
+fn sender_gives_up(dir: &PathBuf, verdict: &mut Verdict, runs: &mut u64) {
+    let path = dir.join("silent.bin");
+    std::fs::write(&path, file_bytes(20)).unwrap();
+    // (the stale acknowledgement is ACK 0 while block 1 is outstanding)
+    let scripts: Vec<(&str, Vec<Option<Packet>>)> = vec![
+        ("silence from the start", vec![]),
+        ("5 time-outs, one stale ACK, then silence", vec![None, None, None, None, None, Some(Packet::Ack(0))]),
+        ("6 stale ACKs, then silence", (0..6).map(|_| Some(Packet::Ack(0))).collect()),
+        ("2 time-outs, stale ACK, 2 time-outs, stale ACK, then silence", vec![None, None, Some(Packet::Ack(0)), None, None, Some(Packet::Ack(0))]),
+    ];
+    let mut handles = Vec::new();
+    for (what, script) in scripts {
+        *runs += 1;
+        let silent = Arc::new(Mutex::new(0usize));
+        let peer = ScriptThenSilent { script: Mutex::new(script.into_iter().collect()), silent_receives: silent.clone(), give_up_at: 9 };
+        let w = Worker::new(Box::new(peer), path.clone(), true, BLK, TMO, 1, 1);
+        handles.push((what, silent, w.send(false).unwrap()));
+    }
+    for (what, silent, h) in handles {
+        let _ = h.join();
+        let n = *silent.lock().unwrap();
+        if n > 9 {
+            verdict.violations.push(("C07", format!("sender (blksize {BLK}, windowsize 1) whose peer stays silent after '{what}': still retransmitting after {} silent time-outs (it must give up after at most 6 tries)", n - 1)));
+        }
     }
 }
 
@@ -562,9 +658,13 @@ fn aborted_uploads(dir: &PathBuf, verdict: &mut Verdict, runs: &mut u64) {
                         let _ = std::fs::remove_file(&path);
                         let peer = AbortPeer { plan: Mutex::new(plan.iter().map(|j| block(*j)).collect()), then_error, error_sent: Mutex::new(false) };
                         let w = Worker::new(Box::new(peer), path.clone(), clean, BLK, TMO, ws, 1);
-                        let _ = w.receive().unwrap().join();
+                        let joined = join_within(w.receive().unwrap(), 60);
                         let ctx = format!("upload of {nb} blocks (blksize {BLK}, windowsize {ws}, {}): {what} by {}",
                                           if clean { "clean-on-error" } else { "keep-on-error" }, if then_error { "ERROR" } else { "silence" });
+                        if joined.is_none() {
+                            verdict.violations.push(("C07", format!("{ctx}: the receiver neither completed nor gave up within 60 s")));
+                            continue;
+                        }
                         let stored = std::fs::read(&path).ok();
                         if clean {
                             if let Some(s) = stored {
@@ -695,6 +795,10 @@ fn main() {
     }
     if which == "all" || which == "C13" {
         aborted_uploads(&dir, &mut verdict, &mut runs);
+    }
+    // real time-outs of more than a second each: full sweep only
+    if !quick && (which == "all" || which == "C07" || which == "C04") {
+        sender_gives_up(&dir, &mut verdict, &mut runs);
     }
     let _ = std::fs::remove_dir_all(&dir);
     let mut found = false;
